@@ -356,6 +356,8 @@ def plan(tier, seed):
         S.append({"kind": "threads", "cfg": {"senders": 2, "sends": 1, "yields": 1, "nested": True}, "bound": 1, "shard": 0, "nshards": 1})
         S.append({"kind": "threads", "cfg": {"senders": 2, "sends": 2, "yields": 1, "anonymous": True}, "bound": 1, "shard": 0, "nshards": 1})
         S.append({"kind": "asyncio", "cfg": {"senders": 3, "sends": 2, "yields": 1, "anonymous": True}, "shard": 0, "nshards": 1})
+        for i in range(8):
+            S.append({"kind": "threads", "cfg": {"senders": 2, "sends": 1, "yields": 1}, "bound": 2, "shard": i, "nshards": 8})
         for i in range(2):
             S.append({"kind": "threads", "cfg": {"senders": 2, "sends": 2, "yields": 1}, "bound": 1, "shard": i, "nshards": 2})
         for i in range(4):
